@@ -31,6 +31,7 @@ class Case:
         self.stats = {}
         self.gen_fd = {}
         self.used_deadlines = set()
+        self.scripted_idles = []
 
     def count(self, key):
         self.stats[key] = self.stats.get(key, 0) + 1
@@ -92,7 +93,9 @@ class Case:
         bs = "none"
         if self.kind.get(k) == "customlife" or failing:
             bs = r.choice(["none", "none", "synth0", "synth1", "err"]) if r.random() < 0.6 else "none"
-        return "plan %d reg=%s rereg=%s unreg=%s bs=%s" % (k, pick(), pick(), pick(), bs)
+        # most real composite sources propagate a sub-registration error with `?` and roll nothing back
+        rb = " rb=0" if failing and r.random() < 0.5 else ""
+        return "plan %d reg=%s rereg=%s unreg=%s bs=%s%s" % (k, pick(), pick(), pick(), bs, rb)
 
     def insert_line(self, k):
         kind = self.kind[k]
@@ -164,10 +167,7 @@ class Case:
         r = self.r
         x = r.random()
         if x < 0.25:
-            i = self.next_idle
-            self.next_idle += 1
-            self.idles.append(i)
-            return "idle %d" % i
+            return self.idle_op(in_cb_of is None)
         if x < 0.35 and self.idles:
             return r.choice(["cancelidle %d", "dropidle %d"]) % r.choice(self.idles)
         if x < 0.5:
@@ -192,12 +192,61 @@ class Case:
                 return self.plan_line(r.choice(customs), failing=r.random() < 0.5)
         return None
 
+    def idle_op(self, top):
+        """insert an idle: a scripted one (its program was declared at the start of the case) or a
+        fresh plain one; at top level sometimes a burst (the queue's Vec grows past its first allocation)"""
+        r = self.r
+        def one():
+            if self.scripted_idles and r.random() < self.p.get("scripted_idle", 0.5):
+                return "idle %d" % r.choice(self.scripted_idles)
+            i = self.next_idle
+            self.next_idle += 1
+            self.idles.append(i)
+            return "idle %d" % i
+        if r.random() < self.p.get("idle_burst", 0.15):
+            n = r.randrange(4, 11)
+            self.count("idle_burst")
+            return ("\n" if top else " ; ").join(one() for _ in range(n))
+        return one()
+
+    def make_idle_script(self, i):
+        """the program of a scripted idle; it inserts at most one scripted idle (itself or another), so
+        the population of pending idles cannot grow geometrically from dispatch to dispatch"""
+        r = self.r
+        ops = []
+        spawned = False
+        for _ in range(r.choice([1, 1, 2, 3])):
+            x = r.random()
+            op = None
+            if x < 0.45:
+                if not spawned and r.random() < 0.7:
+                    op = "idle %d" % r.choice(self.scripted_idles + [i])
+                    spawned = True
+                else:
+                    j = self.next_idle
+                    self.next_idle += 1
+                    self.idles.append(j)
+                    op = "idle %d" % j
+            elif x < 0.6:
+                op = "cancelidle %d" % r.choice([j for j in self.scripted_idles if j != i] or [i + 100])
+            elif x < 0.8:
+                op = self.cause_op()
+            else:
+                op = self.handle_op()
+            if op:
+                ops.append(op)
+                self.count("idleop:" + op.split()[0])
+        if not ops:
+            ops = ["idle %d" % i]
+        return "idlescript %d : %s" % (i, " ; ".join(ops))
+
     def ret_for(self, k):
         r = self.r
         kind = self.kind[k]
         if kind == "timer":
             return r.choice(["drop", "drop", "toinstant %d" % self.fresh_deadline(0, 6),
-                             "toinstant %d" % self.fresh_deadline(1, 4), "overflow", "unit"])
+                             "toinstant %d" % self.fresh_deadline(1, 4), "toinstant %d" % self.fresh_deadline(-3, 1),
+                             "overflow", "unit"])
         if kind in ("gen", "custom", "customlife"):
             return r.choice(["cont"] * 5 + ["rereg", "disable", "remove", "err"])
         return "unit"
@@ -244,12 +293,21 @@ class Case:
         for k in list(self.kind):
             if r.random() < self.p.get("script_rate", 0.6):
                 self.emit(self.make_script(k))
+        if r.random() < self.p.get("idle_scripts", 0.3):
+            n = r.randrange(1, 4)
+            self.scripted_idles = list(range(self.next_idle, self.next_idle + n))
+            self.next_idle += n
+            self.idles += self.scripted_idles
+            for i in self.scripted_idles:
+                self.emit(self.make_idle_script(i))
         nops = r.randrange(self.p.get("min_ops", 4), self.p.get("max_ops", 28))
         since_dispatch = 0
         for _ in range(nops):
             x = r.random()
             op = None
-            if since_dispatch > 3 and r.random() < 0.6 or x < 0.22:
+            if self.p.get("misc_idle") and r.random() < 0.22:
+                op = self.idle_op(True)
+            elif since_dispatch > 3 and r.random() < 0.6 or x < 0.22:
                 op = "dispatch"
             elif x < 0.5:
                 op = self.cause_op()
@@ -287,7 +345,7 @@ PROFILES = {
     "lifecycle": {"kinds": ["customlife", "customlife", "custom", "ping", "gen"], "fail_rate": 0.3},
     "fd": {"kinds": ["gen", "gen", "ping", "chan", "custom"], "max_sources": 8},
     "failures": {"kinds": ["custom", "customlife", "gen", "gen", "ping", "timer"], "fail_rate": 0.6, "malformed": 0.3},
-    "idles": {"kinds": ["ping", "chan", "timer"], "cb_ops": 0.8},
+    "idles": {"kinds": ["ping", "chan", "timer"], "cb_ops": 0.8, "idle_scripts": 0.9, "idle_burst": 0.35, "misc_idle": 0.6},
     "reentrant": {"kinds": KINDS, "cb_ops": 1.0, "script_rate": 0.95},
 }
 
